@@ -358,6 +358,9 @@ def analyse(ops, outs):
             else:
                 pool = None
         elif f[0] == "req":
+            if o.startswith("env-error "):
+                # the host had no local port for the client connection: the request never reached the balancer
+                continue
             m = REQ.match(o)
             if not m:
                 recs.append(("bad-output", {"op": l, "out": o}))
